@@ -163,7 +163,7 @@ theorem both_left_step {σ : List Ev} (IH : Goal cfg W F ls rs σ)
       obtain ⟨s', osr⟩ := p
       rw [hoc] at hrun
       simp only at hrun
-      obtain ⟨PL', PR', drop', hi', hosr, hdr, hdo, b1, b2, em, hout⟩ := onFirstClose_step ok hsw hi hRL hRR hoc
+      obtain ⟨PL', PR', drop', hi', _, _, hosr, hdr, hdo, b1, b2, em, hout⟩ := onFirstClose_step ok hsw hi hRL hRR hoc
       simp only [if_true] at b1 b2
       refine IH s' (.one true osr) [] er [] restR RL RR PL' PR' out hm ⟨rfl, rfl, her⟩ hls hrs
         (by rw [dropOf_one true osr hosr hdr]; exact hi') (phaseD_of hosr hdo) (fun hF => ?_) hrun
@@ -183,7 +183,7 @@ theorem both_left_step {σ : List Ev} (IH : Goal cfg W F ls rs σ)
         rw [hoc] at hrun
         simp only at hrun
         have hsh : Shape cfg true r := hshL r (by rw [hls]; simp [recs])
-        obtain ⟨PL', hi', ⟨em, hout⟩, flw, frw, fmin, fbufR, fbufL⟩ :=
+        obtain ⟨PL', hi', ⟨em, hout⟩, flw, frw, fmin, fbufR, fbufL, _⟩ :=
           onRec_left ok (drop := none) (by simp) (by simp) hi hsh hoc
         refine IH s' .both (evsOf true restL') er restL' restR (RL ++ [r]) RR PL' PR out hm ⟨rfl, her⟩
           (by rw [hls]; simp [recs]) hrs hi' trivial (fun hF => ?_) hrun
@@ -192,7 +192,7 @@ theorem both_left_step {σ : List Ev} (IH : Goal cfg W F ls rs σ)
         refine ⟨by rw [hout]; exact wmOK_snoc_data em hw, ?_, by rw [fmin, flw]; exact hlw, by rw [fmin, frw]; exact hrw,
           by rw [flw]; exact hfl.2, by rw [frw]; exact hfr⟩
         rw [fmin]
-        refine timely_add_left ht (fbufL t het) fbufR het ?_
+        refine timely_add_left ht (fbufL t het).1 fbufR het ?_
         rw [lateB_at]; exact after_of_after_of_not_after hfl.1 hlw
     | wm w =>
       simp only [runFrom] at hrun
@@ -201,7 +201,7 @@ theorem both_left_step {σ : List Ev} (IH : Goal cfg W F ls rs σ)
       | ok s' =>
         rw [hoc] at hrun
         simp only at hrun
-        obtain ⟨PL', PR', hi', hlw', hrw', hcase⟩ := onWm_step ok hi hRL hRR hoc
+        obtain ⟨PL', PR', hi', _, _, hlw', hrw', hcase⟩ := onWm_step ok hi hRL hRR hoc
         simp only [if_true] at hlw' hrw'
         have hls' : ls = RL ++ recs restL' := by rw [hls]; simp [recs]
         refine IH s' .both (evsOf true restL') er restL' restR RL RR PL' PR' out hm ⟨rfl, her⟩
@@ -247,7 +247,7 @@ theorem both_right_step {σ : List Ev} (IH : Goal cfg W F ls rs σ)
       obtain ⟨s', osr⟩ := p
       rw [hoc] at hrun
       simp only at hrun
-      obtain ⟨PL', PR', drop', hi', hosr, hdr, hdo, b1, b2, em, hout⟩ := onFirstClose_step ok hsw hi hRL hRR hoc
+      obtain ⟨PL', PR', drop', hi', _, _, hosr, hdr, hdo, b1, b2, em, hout⟩ := onFirstClose_step ok hsw hi hRL hRR hoc
       simp only [Bool.false_eq_true, if_false] at b1 b2
       refine IH s' (.one false osr) el [] restL [] RL RR PL' PR' out hm ⟨rfl, rfl, hel⟩ hls hrs
         (by rw [dropOf_one false osr hosr hdr]; exact hi') (phaseD_of hosr hdo) (fun hF => ?_) hrun
@@ -267,7 +267,7 @@ theorem both_right_step {σ : List Ev} (IH : Goal cfg W F ls rs σ)
         rw [hoc] at hrun
         simp only at hrun
         have hsh : Shape cfg false r := hshR r (by rw [hrs]; simp [recs])
-        obtain ⟨PR', hi', ⟨em, hout⟩, flw, frw, fmin, fbufL, fbufR⟩ :=
+        obtain ⟨PR', hi', ⟨em, hout⟩, flw, frw, fmin, fbufL, fbufR, _⟩ :=
           onRec_right ok (drop := none) (by simp) (by simp) hi hsh hoc
         refine IH s' .both el (evsOf false restR') restL restR' RL (RR ++ [r]) PL PR' out hm ⟨hel, rfl⟩
           hls (by rw [hrs]; simp [recs]) hi' trivial (fun hF => ?_) hrun
@@ -276,7 +276,7 @@ theorem both_right_step {σ : List Ev} (IH : Goal cfg W F ls rs σ)
         refine ⟨by rw [hout]; exact wmOK_snoc_data em hw, ?_, by rw [fmin, flw]; exact hlw, by rw [fmin, frw]; exact hrw,
           by rw [flw]; exact hfl, by rw [frw]; exact hfr.2⟩
         rw [fmin]
-        refine timely_add_right ht (fbufR t het) fbufL het ?_
+        refine timely_add_right ht (fbufR t het).1 fbufL het ?_
         rw [lateB_at]; exact after_of_after_of_not_after hfr.1 hrw
     | wm w =>
       simp only [runFrom] at hrun
@@ -285,7 +285,7 @@ theorem both_right_step {σ : List Ev} (IH : Goal cfg W F ls rs σ)
       | ok s' =>
         rw [hoc] at hrun
         simp only at hrun
-        obtain ⟨PL', PR', hi', hlw', hrw', hcase⟩ := onWm_step ok hi hRL hRR hoc
+        obtain ⟨PL', PR', hi', _, _, hlw', hrw', hcase⟩ := onWm_step ok hi hRL hRR hoc
         simp only [Bool.false_eq_true, if_false] at hlw' hrw'
         have hrs' : rs = RR ++ recs restR' := by rw [hrs]; simp [recs]
         refine IH s' .both el (evsOf false restR') restL restR' RL RR PL' PR' out hm ⟨hel, rfl⟩
@@ -357,14 +357,14 @@ theorem one_right_step {σ : List Ev} (IH : Goal cfg W F ls rs σ)
         simp only at hrun
         have hsh : Shape cfg false r := hshR r (by rw [hrs]; simp [recs])
         rw [← dropOf_isSome true osr] at hoc
-        obtain ⟨PR', hi', ⟨em, hout⟩, flw, frw, fmin, fbufL, fbufR⟩ := onRec_right ok hd hopen hi hsh hoc
+        obtain ⟨PR', hi', ⟨em, hout⟩, flw, frw, fmin, fbufL, fbufR, _⟩ := onRec_right ok hd hopen hi hsh hoc
         refine IH s' (.one true osr) [] (evsOf false restR') [] restR' RL (RR ++ [r]) PL PR' out hm ⟨rfl, rfl, rfl⟩
           hls (by rw [hrs]; simp [recs]) hi' hD (fun hF => ?_) hrun
         obtain ⟨hw, B, ht, hfr⟩ := hT hF
         simp only [if_true] at hfr
         obtain ⟨t, het⟩ := after_some_of_after hfr.1
         refine ⟨by rw [hout]; exact wmOK_snoc_data em hw, B, ?_, by simpa using hfr.2⟩
-        refine timely_add_right ht (fbufR t het) fbufL het ?_
+        refine timely_add_right ht (fbufR t het).1 fbufL het ?_
         rw [lateB_at]; exact hfr.1
     | wm w =>
       simp only [runFrom, Bool.false_eq_true, beq_iff_eq, if_false] at hrun
@@ -375,7 +375,7 @@ theorem one_right_step {σ : List Ev} (IH : Goal cfg W F ls rs σ)
         rw [hoc] at hrun
         simp only at hrun
         rw [← dropOf_isSome true osr] at hoc
-        obtain ⟨PL', PR', drop', hi', hosr, hdr, hdo, b1, b2, em, hout⟩ :=
+        obtain ⟨PL', PR', drop', hi', _, _, hosr, hdr, hdo, b1, b2, em, hout⟩ :=
           onWmOne_step ok (dropOf_cases true osr) hd hi hRL hRR hoc
         have hrs' : rs = RR ++ recs restR' := by rw [hrs]; simp [recs]
         refine IH s' (.one true osr') [] (evsOf false restR') [] restR' RL RR PL' PR' out hm ⟨rfl, rfl, rfl⟩
@@ -440,14 +440,14 @@ theorem one_left_step {σ : List Ev} (IH : Goal cfg W F ls rs σ)
         simp only at hrun
         have hsh : Shape cfg true r := hshL r (by rw [hls]; simp [recs])
         rw [← dropOf_isSome false osr] at hoc
-        obtain ⟨PL', hi', ⟨em, hout⟩, flw, frw, fmin, fbufR, fbufL⟩ := onRec_left ok hd hopen hi hsh hoc
+        obtain ⟨PL', hi', ⟨em, hout⟩, flw, frw, fmin, fbufR, fbufL, _⟩ := onRec_left ok hd hopen hi hsh hoc
         refine IH s' (.one false osr) (evsOf true restL') [] restL' [] (RL ++ [r]) RR PL' PR out hm ⟨rfl, rfl, rfl⟩
           (by rw [hls]; simp [recs]) hrs hi' hD (fun hF => ?_) hrun
         obtain ⟨hw, B, ht, hfl⟩ := hT hF
         simp only [Bool.false_eq_true, if_false] at hfl
         obtain ⟨t, het⟩ := after_some_of_after hfl.1
         refine ⟨by rw [hout]; exact wmOK_snoc_data em hw, B, ?_, by simpa using hfl.2⟩
-        refine timely_add_left ht (fbufL t het) fbufR het ?_
+        refine timely_add_left ht (fbufL t het).1 fbufR het ?_
         rw [lateB_at]; exact hfl.1
     | wm w =>
       simp only [runFrom, beq_iff_eq, if_false] at hrun
@@ -458,7 +458,7 @@ theorem one_left_step {σ : List Ev} (IH : Goal cfg W F ls rs σ)
         rw [hoc] at hrun
         simp only at hrun
         rw [← dropOf_isSome false osr] at hoc
-        obtain ⟨PL', PR', drop', hi', hosr, hdr, hdo, b1, b2, em, hout⟩ :=
+        obtain ⟨PL', PR', drop', hi', _, _, hosr, hdr, hdo, b1, b2, em, hout⟩ :=
           onWmOne_step ok (dropOf_cases false osr) hd hi hRL hRR hoc
         have hls' : ls = RL ++ recs restL' := by rw [hls]; simp [recs]
         refine IH s' (.one false osr') (evsOf true restL') [] restL' [] RL RR PL' PR' out hm ⟨rfl, rfl, rfl⟩
